@@ -800,7 +800,7 @@ def kinds(tier):
     ]
 
 
-REGISTERED = False
+REGISTERED = True
 LEVEL_TEXT = ("Differential and model-based sampling: for each generated "
               "pair of trees the optimised and the generic comparison are run "
               "on the same locked trees with several option sets and checked "
